@@ -454,6 +454,43 @@ example : errOf ((genPopOne B0).run ⟨spPop, [], s0⟩).1 = none ∧
       [.checkRoot, .getRoot, .show, .get, .checkRoot, .getRoot, .show, .unset] ∧
     "launch" ∉ (((genPopOne B0).run ⟨spPop, [], s0⟩).2.st.store.obj (kImg "image1")).names := by decide +kernel
 
+/-! ### the `NoClash` hypothesis cannot be dropped: the hand model differs from the code on the clash inputs
+
+An object type literally called `get_state` (`states_chain = get_state`, one object `a`, the state to get — `root` —
+given through the type-scoped key `get_state_get_state`).  The dictionary the iteration yields has `get_state = root`;
+`_state_check_chain` copies it to `check_state` and then writes `get_state = a` (type = object name).  The CODE (and
+`genGetOne`, its translation) tests `state_params["get_state"] in ROOTS` on the rewritten value: not a root keyword,
+so it calls `get`.  The hand model `doOne` kept the value read first (`root`): it calls `get_root`.  Reproduced on the
+real code by `harness/props/c12_clash_repro.py` (backend calls `check_root, get_root, get(a)` = the generated side). -/
+
+def pClash : Params :=
+  [("states_chain", "get_state"), ("get_state", "a"), ("get_state_get_state", "root"), ("states", "mem"),
+   ("vms", "vm1"), ("get_mode", "ra"), ("check_mode", "rr")]
+
+/-- what `_parametric_object_iteration(pClash)` yields (one object) -/
+def spClash : Params :=
+  [("states_chain", "get_state"), ("get_state", "root"), ("get_state_get_state", "root"), ("states", "mem"),
+   ("vms", "vm1"), ("get_mode", "ra"), ("check_mode", "rr"), ("object_name", "a"), ("object_type", "get_state")]
+
+/-- the root of the object exists -/
+def sClash : St := { store := [(⟨"get_state", "", "vm1", ""⟩, ⟨true, []⟩)] }
+
+/-- **Witness that `NoClash` is needed in `getOne_matches_source`** (a deviation of the hand model, outside the documented
+parameter space; not a defect of /repo): on the clash input the generated iteration — which is what the real code does —
+ends with the backend call `get` of the state `a`, the hand model with `get_root`. -/
+theorem getOne_clash_witness :
+    (iterObjects pClash).toOption = some [spClash] ∧ ¬ NoClash .get spClash ∧
+    ((genGetOne B0).run ⟨spClash, [], sClash⟩).2.st.calls.map (fun c => (c.kind, c.arg)) =
+      [(.checkRoot, ""), (.getRoot, "-"), (.get, "a")] ∧
+    (doOne B0 .get spClash sClash).2.calls.map (fun c => (c.kind, c.arg)) =
+      [(.checkRoot, ""), (.getRoot, "-"), (.getRoot, "-")] ∧
+    outOf ((genGetOne B0).run ⟨spClash, [], sClash⟩) ≠ doOne B0 .get spClash sClash := by
+  refine ⟨by decide +kernel, by decide +kernel, by decide +kernel, by decide +kernel, ?_⟩
+  intro h
+  have h2 := congrArg (fun r => r.2.calls.map (fun c => (c.kind, c.arg))) h
+  revert h2
+  decide +kernel
+
 end Regenerated
 
 end I2N.Props.C12
